@@ -267,7 +267,7 @@ theorem flatten_fill (j nf : Nat) (hj : j < nf) : ∀ (cells : List (Option Ref)
       have hwf1 : ∀ x ∈ heap1, x.WF := by
         rw [← hh1]; exact wf_set hwf (Arr.setCol_wf hwfa j _) r
       have hext : HeapExt heap heap1 := by
-        rw [← hh1]; exact HeapExt.set ha (by simp [Arr.setCol])
+        rw [← hh1]; exact HeapExt.set ha (Arr.setCol_same _ _ _)
       have hfl : flattenField heap1 cs j = flattenField heap cs j := flattenField_congr j cs hsame
       have hih := ih heap1 (xs.drop a.nrows) hwf1 (fun c h => (hc' c h).mono hext) hnd2.2
         (by rw [hfl]; simp; omega)
